@@ -72,30 +72,64 @@ Proof. exact race_safe. Qed.
 
 (* ---- the seata-fence-mysql proxy-driver mode (FenceConn.BeginTx / FenceTx) -------------------
    DDrv k phase fault = a delivery whose participant opens its transaction on a proxy connection: the
-   fence runs in a second transaction, the business cannot be skipped, the two transactions are
-   committed one after the other.  The full property FAILS there (known findings
-   fence.drivermode.decided-without-business and fence.drivermode.fault-at-commit); outside these
-   two input predicates (dhist_supported) idempotence and exclusivity hold for mixed histories. *)
+   fence runs in a second transaction B, the business cannot be skipped, FenceTx.Commit commits the
+   business transaction A and then - only if that succeeded - B.  DApi = a WithFence delivery.  The
+   state also carries the branches whose fence row is locked by a leaked transaction.
+   The full property FAILS in exactly two regions (known findings):
+     fence.drivermode.decided-business-committed   the fence settles the delivery by itself (duplicate
+                                                   phase two, empty rollback) and the caller's business
+                                                   transaction gets committed;
+     fence.drivermode.fault-at-fence-commit        the failure hits B's COMMIT after A was committed.
+   Everywhere else - in particular for a failure of A's COMMIT, which leaves neither effect nor record
+   and leaks B's lock - the property holds (dhist_supported / dop_supported = outside both). *)
 Theorem C06_drivermode_partial : forall h k,
-  dhist_supported [] h = true ->
-  let c := get (run_dhist [] h) k in
+  dhist_supported dinit h = true ->
+  let c := get (fst (run_dhist dinit h)) k in
   try_of c <= 1 /\ confirm_of c <= 1 /\ cancel_of c <= 1 /\ ~ (confirm_of c = 1 /\ cancel_of c = 1).
 Proof. exact drv_partial. Qed.
 
+Theorem C06_drivermode_atomic : forall dw o,
+  dop_supported dw o = true ->
+  let k := dop_key o in
+  let '(t, sh) := dop_run dw o in
+  let c := get (fst dw) k in
+  let c' := get (fst (apply_dop dw o)) k in
+  legal (c_row c) (c_row c') (s_effs sh) = true /\ c_cnt c' = add_effs (c_cnt c) (s_effs sh) /\
+  (t_err t <> ENone -> c' = c).
+Proof. exact drv_atomic. Qed.
+
+(* the two regions are exactly as wide as the defect: inside them every proxy-driver delivery commits a
+   record / effect combination that is not a step of the status machine *)
+Theorem C06_drivermode_regions_exact : forall locked row ph fault,
+  drv_supported locked row ph fault = false ->
+  let '(_, sh) := deliver_l true locked row ph fault in legal row (s_row sh) (s_effs sh) = false.
+Proof. exact regions_exact. Qed.
+
 Theorem C06_drivermode_refuted :
   (let h := [DDrv 1 Prepare None; DDrv 1 Commit None; DDrv 1 Commit None] in
-   dhist_supported [] h = false /\ confirm_of (get (run_dhist [] h) 1) = 2) /\
+   dhist_supported dinit h = false /\ confirm_of (get (fst (run_dhist dinit h)) 1) = 2) /\
   (let h := [DDrv 1 Rollback None] in
-   dhist_supported [] h = false /\ get (run_dhist [] h) 1 = mkC (Some Suspended) (0, 0, 1)) /\
+   dhist_supported dinit h = false /\ get (fst (run_dhist dinit h)) 1 = mkC (Some Suspended) (0, 0, 1)) /\
   (let h := [DDrv 1 Prepare (Some 6%nat)] in
-   dhist_supported [] h = false /\ get (run_dhist [] h) 1 = mkC None (1, 0, 0)).
+   dhist_supported dinit h = false /\ get (fst (run_dhist dinit h)) 1 = mkC None (1, 0, 0)).
 Proof. exact drv_refuted. Qed.
 
+(* the business COMMIT fails (operation 5 of a prepare): supported, nothing durable, lock leaked, the next
+   delivery times out on it and changes nothing *)
+Example C06_drivermode_business_commit_fault :
+  let h := [DDrv 1 Prepare (Some 5%nat); DDrv 1 Prepare None; DApi 1 Rollback None] in
+  dhist_supported dinit h = true /\
+  run_dhist dinit [DDrv 1 Prepare (Some 5%nat)] = ([(1, mkC None (0, 0, 0))], [1]) /\
+  get (fst (run_dhist dinit h)) 1 = mkC None (0, 0, 0) /\
+  t_err (fst (dop_run (run_dhist dinit [DDrv 1 Prepare (Some 5%nat)]) (DDrv 1 Prepare None))) = ELocked.
+Proof. exact business_commit_fault_example. Qed.
+
 Example C06_drivermode_nonvacuous :
-  let h := [DDrv 1 Prepare (Some 3%nat); DDrv 1 Prepare None; DApi (HDeliver 1 Prepare None); DDrv 1 Commit (Some 6%nat);
-            DDrv 1 Commit None; DApi (HDeliver 1 Commit None); DDrv 1 Rollback None; DDrv 2 Commit None] in
-  dhist_supported [] h = true /\ get (run_dhist [] h) 1 = mkC (Some Committed) (1, 1, 0) /\
-  get (run_dhist [] h) 2 = mkC None (0, 0, 0).
+  let h := [DDrv 1 Prepare (Some 3%nat); DDrv 1 Prepare None; DApi 1 Prepare None; DDrv 1 Commit (Some 4%nat);
+            DDrv 1 Commit None; DApi 1 Commit None; DDrv 1 Rollback None; DDrv 2 Commit None;
+            DDrv 3 Rollback (Some 4%nat)] in
+  dhist_supported dinit h = true /\ get (fst (run_dhist dinit h)) 1 = mkC (Some Committed) (1, 1, 0) /\
+  get (fst (run_dhist dinit h)) 2 = mkC None (0, 0, 0) /\ get (fst (run_dhist dinit h)) 3 = mkC None (0, 0, 0).
 Proof. vm_compute. repeat split. Qed.
 
 (* ---- non-vacuity -------------------------------------------------------------- *)
